@@ -275,7 +275,8 @@ def rule_record(run):
     run.ob(der._own.get("_cohdlstd_bitcount") == 5, "_make_serializable", file=rec.rel, line=rec.func("_make_serializable").node.lineno, detail="idempotent", expected="second call keeps the layout", found=str(der._own.get("_cohdlstd_bitcount")))
     fb = rec.func("Record._from_bits_")
     t = P.T(fb.node)
-    ok = "bits[cls._cohdlstd_slice_map[name]]" in t and "from_bits[elem_type](" in t and "assert bits.width == cls._count_bits_()" in t and "for name, elem_type in cls._cohdlstd_record_annotations.items()" in t
+    ok = "assert bits.width == cls._count_bits_()" in t and P.has(
+        fb.node, "{__n: from_bits[__t](bits[cls._cohdlstd_slice_map[__n]], qualifier) for __n, __t in cls._cohdlstd_record_annotations.items()}")
     run.ob(ok, "Record._from_bits_", file=rec.rel, line=fb.node.lineno, detail="reader", expected="every field read from its slice of the map with its own type; width checked", found="ok" if ok else "changed")
     rl = rec.func("_get_reverse_elem_list")
     ok = "[::-1]" in P.T(rl.node) and "self._cohdlstd_record_annotations.keys()" in P.T(rl.node)
